@@ -1306,6 +1306,14 @@ class CSSMatch(_DocumentNav):
 
         return match
 
+    def get_dir_parent(self, el: bs4.Tag) -> bs4.Tag | None:
+        """Get the nearest HTML ancestor: direction is inherited through foreign (SVG, MathML) ancestors."""
+
+        parent = self.get_parent(el, no_iframe=True)
+        while parent is not None and not self.is_html_tag(parent):
+            parent = self.get_parent(parent, no_iframe=True)
+        return parent
+
     def match_dir(self, el: bs4.Tag | None, directionality: int) -> bool:
         """Check directionality."""
 
@@ -1351,7 +1359,7 @@ class CSSMatch(_DocumentNav):
                 return ct.SEL_DIR_LTR == directionality
             elif is_root:
                 return ct.SEL_DIR_LTR == directionality
-            return self.match_dir(self.get_parent(el, no_iframe=True), directionality)
+            return self.match_dir(self.get_dir_parent(el), directionality)
 
         # Auto handling for `bdi` and other non text inputs.
         if (is_bdi and direction is None) or direction == 0:
@@ -1360,10 +1368,10 @@ class CSSMatch(_DocumentNav):
                 return direction == directionality
             elif is_root:
                 return ct.SEL_DIR_LTR == directionality
-            return self.match_dir(self.get_parent(el, no_iframe=True), directionality)
+            return self.match_dir(self.get_dir_parent(el), directionality)
 
         # Match parents direction
-        return self.match_dir(self.get_parent(el, no_iframe=True), directionality)
+        return self.match_dir(self.get_dir_parent(el), directionality)
 
     def match_range(self, el: bs4.Tag, condition: int) -> bool:
         """
